@@ -2,6 +2,7 @@
 # soundness_sweep.sh <seed...>: run every quick check on the UNCHANGED tree with other seeds; evidence goes to .work/sweep-out
 cd /verif
 ( cd engine && cargo +stable build --release --bin mfv >/dev/null 2>&1 )
+mkdir -p /verif/.work/sweep-out; cp -f /verif/KNOWN_FINDINGS.jsonl /verif/.work/sweep-out/   # the known-findings file is looked up under VERIF_ROOT
 for seed in "$@"; do
   for id in C01 C02 C03 C04 C05 C06 C07 C08 C09 C10 C11 C12 C13 C14 C15 C16 C17 C18 C19 C20; do
     out=$(VERIF_ROOT=/verif/.work/sweep-out VERIF_SEED=$seed nice -n 5 /verif/.work/target/release/mfv $id quick 2>&1); rc=$?
